@@ -139,8 +139,8 @@ void builtin_with_target(vf::Ctx& c, vf::RunCfg<T> const& cfg, std::vector<std::
         {
             auto const& r = full.results()[i];
             total_calls += r.calls();
-            nz += r.non_zero_calls();
-            if (r.non_zero_calls() == 0) { continue; }
+            nz += r.finite_calls(); // (evaluations that carry information: non-zero and finite)
+            if (r.finite_calls() == 0) { continue; }
             long double const var = r.variance();
             sw += 1.0L / var;
             swe += static_cast<long double>(r.value()) / var;
@@ -215,7 +215,7 @@ void builtin_with_target_after_long_campaign(vf::Ctx& c, vf::RunCfg<T> const& cf
         {
             auto const& r = full.results()[i];
             total_calls += r.calls();
-            if (r.non_zero_calls() == 0) { continue; }
+            if (r.finite_calls() == 0) { continue; }
             // the fabricated result is taken by its construction values: the model must not share the conversion under test
             long double const var = (i == 0) ? S0 * S0 : static_cast<long double>(r.variance());
             long double const val = (i == 0) ? E0 : static_cast<long double>(r.value());
